@@ -267,7 +267,7 @@ pub fn run(ctx: &Ctx) -> Report {
         let ops = vec![QOp::Start(0), QOp::Col(Cell::val(cell.clone())), QOp::EndRow, QOp::Finish];
         let cmds = vec![Cmd::prepare(b"p"), Cmd::execute(1, &[], false)];
         let scripts = vec![Script::PrepOk { id: 1, params: vec![], cols: vec![col.clone()] }, Script::Q(QProg { colsets: vec![vec![col.clone()]], ops, on_err: OnErr::Forget })];
-        let obs = run_case(&Case::new(cmds, scripts));
+        let obs = run_case(&varied_case(rng, cmds, scripts));
         rep.evaluations += 1;
         if harness_panic(&obs, rep) {
             return;
@@ -370,7 +370,7 @@ pub fn run(ctx: &Ctx) -> Report {
                 wants.push(None);
             }
         }
-        let obs = run_case(&Case::new(cmds, scripts));
+        let obs = run_case(&varied_case(rng, cmds, scripts));
         rep.evaluations += 1;
         if harness_panic(&obs, rep) {
             return;
